@@ -995,6 +995,131 @@ theorem find_print_cancel (root : Node) (start : Pos) (p : CPath) (single strict
   | error e => cases single <;> rfl
   | ok res => cases single <;> rfl
 
+/-! ### strict and non-strict lookups -/
+
+theorem flatMapM_ok_of_all {α β : Type} (f : α → Except Err (List β)) :
+    ∀ xs : List α, (∀ x ∈ xs, ∃ r, f x = .ok r) → ∃ r, flatMapM f xs = .ok r
+  | [], _ => ⟨[], rfl⟩
+  | x :: xs, h => by
+    obtain ⟨r1, h1⟩ := h x (by simp)
+    obtain ⟨r2, h2⟩ := flatMapM_ok_of_all f xs (fun y hy => h y (by simp [hy]))
+    exact ⟨r1 ++ r2, by simp [flatMapM, h1, h2]⟩
+
+/-- **non-strict lookups never raise**: without `strict`, every op list (without a zero
+    stride) evaluates to a list -/
+theorem lax_never_raises (root : Node) : ∀ (ops : List Op) (el : Pos), NoZero ops = true →
+    ∃ res, denOps root false ops el = .ok res
+  | [], el, _ => ⟨[el], rfl⟩
+  | .top :: r, el, hz => by
+    simp only [denOps]; exact lax_never_raises root r [] (by simpa [NoZero, Op.stepOk] using hz)
+  | .up :: r, el, hz => by
+    simp only [denOps]; exact lax_never_raises root r _ (by simpa [NoZero, Op.stepOk] using hz)
+  | .here :: r, el, hz => by
+    simp only [denOps]; exact lax_never_raises root r _ (by simpa [NoZero, Op.stepOk] using hz)
+  | .name d :: r, el, hz => by
+    simp only [denOps]
+    cases indexAt root el d with
+    | some i => exact lax_never_raises root r _ (by simpa [NoZero, Op.stepOk] using hz)
+    | none => exact ⟨[], rfl⟩
+  | .slice a b c :: r, el, hz => by
+    have hz' : NoZero r = true := by
+      simp only [NoZero, List.all_cons, Bool.and_eq_true] at hz; exact hz.2
+    have hc : (c == some 0) = false := by
+      simp only [NoZero, List.all_cons, Bool.and_eq_true] at hz
+      have h1 := hz.1
+      cases c with
+      | none => rfl
+      | some v =>
+        simp only [Op.stepOk, bne_iff_ne, ne_eq] at h1
+        simp [h1]
+    simp only [denOps, hc]
+    exact flatMapM_ok_of_all _ _ (fun p _ => lax_never_raises root r p hz')
+
+/-- … and so does `find(path, strict=False)` for every path string that compiles -/
+theorem find_lax_never_lookup (root : Node) (start : Pos) (path : Str) (single : Bool) (ops : List Op)
+    (ht : tokenize path = .ok ops) : find root start path single false ≠ .err .lookup := by
+  rw [find_denotes, ht]
+  obtain ⟨res, hr⟩ := lax_never_raises root ops start (tokenize_noZero path ops ht)
+  simp only [hr, findResOf]
+  cases single with
+  | false => simp
+  | true =>
+    simp only [if_true, singleOf]
+    match res with
+    | [] => simp
+    | [p] => simp
+    | p :: q :: r => simp
+
+theorem flatMapM_congr_ok {α β : Type} (f g : α → Except Err (List β)) :
+    ∀ (xs : List α) (r : List β), (∀ x ∈ xs, ∀ y, f x = .ok y → g x = .ok y) →
+      flatMapM f xs = .ok r → flatMapM g xs = .ok r
+  | [], r, _, h => h
+  | x :: xs, r, hfg, h => by
+    simp only [flatMapM] at h ⊢
+    cases hx : f x with
+    | error e => rw [hx] at h; simp at h
+    | ok ys =>
+      rw [hx] at h
+      simp only at h
+      cases hxs : flatMapM f xs with
+      | error e => rw [hxs] at h; simp at h
+      | ok zs =>
+        rw [hxs] at h
+        rw [hfg x (by simp) ys hx, flatMapM_congr_ok f g xs zs (fun y hy => hfg y (by simp [hy])) hxs]
+        exact h
+
+/-- **when the strict lookup succeeds, the non-strict one returns the same elements** -/
+theorem strict_ok_eq_lax (root : Node) : ∀ (ops : List Op) (el : Pos) (res : List Pos),
+    denOps root true ops el = .ok res → denOps root false ops el = .ok res
+  | [], el, res, h => h
+  | .top :: r, el, res, h => by simp only [denOps] at h ⊢; exact strict_ok_eq_lax root r _ res h
+  | .up :: r, el, res, h => by simp only [denOps] at h ⊢; exact strict_ok_eq_lax root r _ res h
+  | .here :: r, el, res, h => by simp only [denOps] at h ⊢; exact strict_ok_eq_lax root r _ res h
+  | .name d :: r, el, res, h => by
+    simp only [denOps] at h ⊢
+    cases hi : indexAt root el d with
+    | some i => rw [hi] at h; exact strict_ok_eq_lax root r _ res h
+    | none => rw [hi] at h; simp at h
+  | .slice a b c :: r, el, res, h => by
+    simp only [denOps] at h ⊢
+    split at h
+    · simp at h
+    · next hc =>
+      simp only [hc, Bool.false_eq_true, if_false]
+      exact flatMapM_congr_ok _ _ _ res (fun x _ y hy => strict_ok_eq_lax root r x y hy) h
+
+def Op.notName : Op → Bool | .name _ => false | _ => true
+
+/-- **slices, negative indexes, `..`, `.` and `/` never raise**, strict or not: an op list
+    without NAME steps always evaluates to a list -/
+theorem no_names_never_raises (root : Node) (strict : Bool) : ∀ (ops : List Op) (el : Pos),
+    NoZero ops = true → ops.all Op.notName = true → ∃ res, denOps root strict ops el = .ok res
+  | [], el, _, _ => ⟨[el], rfl⟩
+  | .top :: r, el, hz, hn => by
+    simp only [denOps]
+    exact no_names_never_raises root strict r [] (by simpa [NoZero, Op.stepOk] using hz) (by simpa [Op.notName] using hn)
+  | .up :: r, el, hz, hn => by
+    simp only [denOps]
+    exact no_names_never_raises root strict r _ (by simpa [NoZero, Op.stepOk] using hz) (by simpa [Op.notName] using hn)
+  | .here :: r, el, hz, hn => by
+    simp only [denOps]
+    exact no_names_never_raises root strict r _ (by simpa [NoZero, Op.stepOk] using hz) (by simpa [Op.notName] using hn)
+  | .name d :: r, el, _, hn => by simp [Op.notName] at hn
+  | .slice a b c :: r, el, hz, hn => by
+    have hz' : NoZero r = true := by
+      simp only [NoZero, List.all_cons, Bool.and_eq_true] at hz; exact hz.2
+    have hn' : r.all Op.notName = true := by simpa [Op.notName] using hn
+    have hc : (c == some 0) = false := by
+      simp only [NoZero, List.all_cons, Bool.and_eq_true] at hz
+      have h1 := hz.1
+      cases c with
+      | none => rfl
+      | some v =>
+        simp only [Op.stepOk, bne_iff_ne, ne_eq] at h1
+        simp [h1]
+    simp only [denOps, hc]
+    exact flatMapM_ok_of_all _ _ (fun p _ => no_names_never_raises root strict r p hz' hn')
+
 /-! ### results come in sequence order -/
 
 theorem denoteSteps_filter_here (root : Node) (strict : Bool) : ∀ (R : List Step) (cur : List Pos),
